@@ -48,6 +48,9 @@ CHECKS["C08"] = ("reseed-dominance analysis (call-graph fixpoint of drawing func
 CHECKS["C18"] = ("who-may-write (OWN) and ordering (ORD) rules over polytopes.py, reseed dominance of the index shuffle",
     "Index permanence and level ordering for all levels and histories, projection = normalised node at the only node-adding site, prefix property of get_nodes, index-ordered half-hypercube selection, deterministic shuffle. Equality with the ideal lattice, negation closure and antipodal uniqueness are numerical and not decided.", "6 C18")
 
+CHECKS["C10"] = ("syntax-directed dataflow over the frame loop (per-iteration reset dominance), inversion-parity count on the rotation chain, sibling agreement of selection strings and quaternion constructors, ordering of frame collection, writer wiring",
+    "Structural clauses: every in-place mutation of the moving molecule is preceded in its iteration by a restore from a loop-invariant snapshot; the rotation matrix is R(q) of row[3:] with even inversion parity and the translation +row[:3]; one frame per row in row order; atom order molecule 1 then 2; siblings agree. MDAnalysis' rigid-body arithmetic is trusted.", "6 C10")
+
 NOT_APPLICABLE = {
     "C06": "Cartesian Voronoi cell geometry is produced by qhull and floating-point predicates (polygon vertex ordering, F2); no static abstract domain in reach separates the failing coordinate configurations; the one structural clause is too thin to claim the property (DESIGN.md section 6, C06).",
     "C07": "distinctness/separation/hemisphere membership of computed coordinates are numerical facts; the row-count and unit-norm clauses are already run-time assertions, so a static restatement would only test the presence of those asserts (DESIGN.md section 6, C07).",
